@@ -63,8 +63,14 @@ def _flatten(plugins: list) -> list:
     return out
 
 
-def expected(case: dict) -> dict:
-    """What must leave the transport. headers: lower-name -> value; query: list of pairs; cookies: dict."""
+def _refreshed(mode: str, cur: str, new_token: str) -> str:
+    return {"new": new_token, "same": cur, "empty": "", "rotate": cur + "r"}[mode]
+
+
+def expected(case: dict, step_index: int = 0) -> dict:
+    """What must leave the transport. headers: lower-name -> value; query: list of pairs; cookies: dict.
+    step_index: how many requests the same transport (hence the same plugin instances) has already sent; an OAuth2 plugin keeps
+    the token its callback last returned and hands it to the callback on the next request ("rotate" makes that observable)."""
     h: list[tuple[str, str]] = []
     for k, v in (case.get("defaults") or {}).items():
         _ci_set(h, k, v)
@@ -92,9 +98,10 @@ def expected(case: dict) -> dict:
                 tok = p["token"]
                 if p.get("refresh"):
                     refresh_calls.append(i)
-                    new = {"new": p.get("new_token", "NEW"), "same": tok, "empty": ""}[p["refresh"]]
-                    if new and new != tok:
-                        tok = new
+                    for _ in range(step_index + 1):
+                        new = _refreshed(p["refresh"], tok, p.get("new_token", "NEW"))
+                        if new and new != tok:
+                            tok = new
                 _ci_set(h, "Authorization", f"Bearer {tok}")
     elif case.get("bearer_token") is not None:
         _ci_set(h, "Authorization", f"Bearer {case['bearer_token']}")
@@ -124,7 +131,7 @@ def _build_auth(plugins: list, counters: dict):
 
                 async def cb(cur, mode=mode, new_token=new_token):
                     counters["refresh"] = counters.get("refresh", 0) + 1
-                    return {"new": new_token, "same": cur, "empty": ""}[mode]
+                    return _refreshed(mode, cur, new_token)
 
             return OAuth2Auth(p["token"], refresh_callback=cb)
         if p["t"] == "composite":
@@ -222,7 +229,7 @@ def evaluate(case: dict) -> list[Violation]:
     steps = list(case.get("history") or []) + [case]
     for i, (step, out) in enumerate(zip(steps, res["steps"])):
         step_case = {**{k: v for k, v in case.items() if k != "history"}, **step}
-        for v in _evaluate_step(step_case, out):
+        for v in _evaluate_step(step_case, out, i):
             viols.append(v if i == 0 else Violation(v.sig + ("after_history",) if v.sig[-1] != "after_history" else v.sig, f"step {i}: " + v.detail))
     if res["defaults_mutated"]:
         viols.append(Violation(("defaults_dict_mutated",), json.dumps(case)[:500]))
@@ -231,10 +238,10 @@ def evaluate(case: dict) -> list[Violation]:
     return [v for v in viols if not (v.sig[-1:] == ("after_history",) and v.sig[:-1] in plain)]
 
 
-def _evaluate_step(case: dict, out: dict) -> list[Violation]:
+def _evaluate_step(case: dict, out: dict, step_index: int = 0) -> list[Violation]:
     from urllib.parse import parse_qsl
 
-    exp = expected(case)
+    exp = expected(case, step_index)
     viols: list[Violation] = []
     if out["kwargs_mutated"]:
         viols.append(Violation(("caller_kwargs_mutated",), json.dumps(case)[:500]))
@@ -394,6 +401,7 @@ PLUGIN_CONFIGS = [
     {"t": "oauth2", "token": "o1"},
     {"t": "oauth2", "token": "o2", "refresh": "new", "new_token": "o2n"},
     {"t": "oauth2", "token": "o3", "refresh": "same"},
+    {"t": "oauth2", "token": "o4", "refresh": "rotate"},
 ]
 HEADER_CONFIGS = [
     (None, None),
@@ -465,7 +473,7 @@ def _strategy():
         st.fixed_dictionaries({"t": st.just("apikey"), "loc": st.sampled_from(["header", "query", "cookie"]), "name": st.one_of(names, cname), "key": tok}),
         st.fixed_dictionaries({"t": st.just("headers"), "headers": st.dictionaries(names, vals, min_size=1, max_size=3).map(ci_unique)}),
         st.fixed_dictionaries({"t": st.just("oauth2"), "token": tok}),
-        st.fixed_dictionaries({"t": st.just("oauth2"), "token": tok, "refresh": st.sampled_from(["new", "same", "empty"]), "new_token": tok}),
+        st.fixed_dictionaries({"t": st.just("oauth2"), "token": tok, "refresh": st.sampled_from(["new", "same", "empty", "rotate", "rotate"]), "new_token": tok}),
     )
     plugin = st.one_of(plugin_leaf, plugin_leaf, plugin_leaf,
                        st.fixed_dictionaries({"t": st.just("composite"), "plugins": st.lists(plugin_leaf, min_size=0, max_size=3)}))
